@@ -366,7 +366,7 @@ class Generator:
                         if c2 == "endfn":
                             break
                         if c2 in ("sig", "loop", "body-start", "body-end", "loop-start", "loop-end",
-                                  "before", "after", "replace-type", "decl", "closure"):
+                                  "before", "after", "replace-type", "decl", "closure", "opaque-closure"):
                             cur = {"cmd": c2, "arg": a2, "lines": [], "line0": j + 2}
                             sections.append(cur)
                         else:
@@ -1016,6 +1016,28 @@ class Generator:
                 ed.replace(s[c0].start, s[c0 + 2].end, body.strip() + " {", 1)
                 ed.insert(s[close].start, " }", 1)
                 rules["R11"] = rules.get("R11", 0) + 1
+            elif sec["cmd"] == "opaque-closure":
+                # R13: the n-th ARGUMENT-LESS closure expression of the slice (`|| [-> T] { .. }`) is not
+                # ingested; the whole expression is replaced by the text of the section (a call to an
+                # ASSUMED stand-in).  Stated per use; only for closures whose body is outside Verus
+                # (unsafe raw-pointer access) and whose content the slice's contract does not speak about.
+                n = int(sec["arg"].split()[0])
+                cl = []
+                q = lo
+                while q < hi:
+                    if src.is_p(q, "|") and src.is_p(q + 1, "|") and s[q].end == s[q + 1].start and (src.is_p(q - 1, "(") or src.is_p(q - 1, ",")):
+                        cl.append(q)
+                    q += 1
+                if n < 1 or n > len(cl):
+                    raise LostAnchor("%s: slice %s has %d argument-less closures, directive names closure %d" % (file, name, len(cl), n))
+                c0 = cl[n - 1]
+                q = c0 + 2
+                while q < hi and not src.is_p(q, "{"):
+                    q += 1
+                if q >= hi:
+                    raise LostAnchor("%s: closure %d of slice %s has no block body" % (file, n, name))
+                ed.replace(s[c0].start, s[src.match[q]].end, body.strip(), 2)
+                rules["R13"] = rules.get("R13", 0) + 1
             else:
                 raise SpecError("%s: section %s not supported in //@slice" % (rel, sec["cmd"]))
         if not decl:
